@@ -114,7 +114,11 @@ func runC14(c *core.Ctx) {
 				if !c.Want(caseID) {
 					continue
 				}
-				c14Retained(c, t, ch, shape[0], shape[1], caseID)
+				c14Retained(c, t, ch, shape[0], shape[1], caseID, 0)
+				if ch >= 2 && shape[0] < shape[1] {
+					// the parent ends in a partly filled frame when the views are taken
+					c14Retained(c, t, ch, shape[0], shape[1], caseID+"/partial-frame", 1+(hn+ch)%(ch-1))
+				}
 			}
 		}
 	}
@@ -143,7 +147,7 @@ func extremeVal(t *dyn.TypeInfo, neg bool) dyn.Val {
 	return dyn.FloatVal(math.Inf(1))
 }
 
-func c14Retained(c *core.Ctx, t *dyn.TypeOps, ch, l, k int, caseID string) {
+func c14Retained(c *core.Ctx, t *dyn.TypeOps, ch, l, k int, caseID string, ragged int) {
 	inst := "Channel[" + t.Name + "]"
 	d := map[string]any{"type": t.Name, "channels": ch, "length": l, "capacity": k, "scenario": "views taken first, parent mutated afterwards"}
 	parent := t.Alloc(signal.Allocator{Channels: ch, Length: l, Capacity: k})
@@ -158,6 +162,13 @@ func c14Retained(c *core.Ctx, t *dyn.TypeOps, ch, l, k int, caseID string) {
 	}
 	for i := 0; i < parent.Len(); i++ {
 		parent.SetSample(i, stamp())
+	}
+	for i := 0; i < ragged; i++ {
+		parent.AppendSample(stamp())
+	}
+	if ragged > 0 {
+		d["samples_of_a_partial_last_frame_when_the_views_were_taken"] = ragged
+		c.Obs("retained_views_taken_on_a_parent_with_a_partial_last_frame", 1)
 	}
 	views := make([]dyn.Chan, ch)
 	for cc := range views {
